@@ -28,7 +28,11 @@ func (x *Exec) execBuiltin(st *State, name string, c *ssa.CallCommon, args []*Va
 				l := x.mapLen(st, mt, a.T)
 				x.assume(st, tCmp(">=", l, intLit(0)))
 				x.assume(st, tImp(tEq(a.T, intLit(0)), tEq(l, intLit(0))))
-				x.axiomsOn["maplen"] = true
+				// a map with a key has positive length (so len == 0 means empty)
+				ks, _ := sortOfKey(mt.Key())
+				kb := &Term{Op: "k!ml", S: ks}
+				dom := x.mapDom(st, mt, a.T)
+				x.assume(st, tForall([]*Term{kb}, tImp(tSelect(dom, kb), tCmp(">", l, intLit(0))), []*Term{tSelect(dom, kb)}))
 				return intVal(l), nil
 			}
 		}
@@ -263,6 +267,25 @@ func (x *Exec) builtinExtern(st *State, key string, c *ssa.CallCommon, a []*Val,
 		// %w wrapping: if the format literal contains %w, every error-typed variadic argument is wrapped.
 		x.wrapFacts(st, c, e)
 		return scalar(e, rt), true, nil
+	case "errors.As":
+		use()
+		// errors.As(err, &target): an uninterpreted predicate of the error and the target type; the target is havoced
+		tk := "unknown"
+		if pt, ok := c.Args[1].Type().Underlying().(*types.Pointer); ok {
+			tk = typeKey(pt.Elem())
+		} else if mi, ok := c.Args[1].(*ssa.MakeInterface); ok {
+			if pt, ok := mi.X.Type().Underlying().(*types.Pointer); ok {
+				tk = typeKey(pt.Elem())
+				if al, isAl := rootAlloc(mi.X); isAl {
+					if cur, okc := st.cells[al]; okc && isSMTVal(cur) {
+						st.cells[al] = x.havocVal(al.Type().(*types.Pointer).Elem(), "as.target")
+					}
+				}
+			}
+		}
+		r := x.ufApp("errAs."+tk, SBool, T(0))
+		x.assume(st, tImp(tEq(T(0), errNil), tNot(r)))
+		return boolVal(r), true, nil
 	case "fmt.Sprintf":
 		if v, ok := x.sprintfModel(st, c); ok {
 			use()
